@@ -5531,12 +5531,28 @@ func producerSortedBy(p *core.Prog, v ssa.Value, field string, depth int) (bool,
 // first of its line and is dropped when it looks like a list marker.)
 func checkLineStringifier(c *Ctx, p *core.Prog) {
 	var sf *ssa.Function
+	var cands []*ssa.Function
 	for _, f := range pkgFuncs(p, v2pkg) {
 		if f.Parent() != nil || f.Signature.Results().Len() != 2 {
 			continue
 		}
 		r0, r1 := f.Signature.Results().At(0).Type(), f.Signature.Results().At(1).Type()
 		if sl, ok := r0.Underlying().(*types.Slice); ok && core.StructOf(sl.Elem()) != nil && strings.HasSuffix(core.TypeName(r1), "/v2.Match") {
+			cands = append(cands, f)
+		}
+	}
+	// the stringifier split into phases: the phase with the same results is called by the stringifier, not the other way round
+	for _, f := range cands {
+		inner := false
+		sites, _ := eng.CallSitesOf(f)
+		for _, cs := range sites {
+			for _, g := range cands {
+				if g != f && cs.Parent() == g {
+					inner = true
+				}
+			}
+		}
+		if !inner {
 			sf = f
 		}
 	}
